@@ -84,12 +84,14 @@ class Epoch:
         module_for(self.fam)
 
     # ---------------------------------------------------------------- helpers
-    def _new_chains(self, rcs):
+    def _new_chains(self, rcs, registry=None):
         from taskchain import Chain, MultiChain
 
         self.nbuilt += 1
         configs = [build_config(self.fam, rc, self.base, self.work / f'cfg{os.getpid()}_{self.nbuilt}_{i}')
                    for i, rc in enumerate(rcs)]
+        if registry is not None:
+            return None, [Chain(configs[0], shared_tasks=registry)]
         if len(rcs) == 1 and not self.opts.get('always_multi'):
             return None, [Chain(configs[0])]
         mc = MultiChain(configs)
@@ -122,14 +124,29 @@ class Epoch:
         self.stepno += 1
         gen.CTRL['gen'] = self.stepno if self.opts.get('gens') else None
         out = {'err': None, 'value': None}
+        if name == 'AddChain':
+            sl = self.slots[act['s']]
+            _, (ch,) = self._new_chains([act['n']], registry=sl['registry'])
+            sl['rcs'] = list(sl['rcs']) + [act['n']]
+            sl['chains'].append(ch)
+            for node in self.model.res[act['n']]:
+                sl['objd'][id(self.task(ch, node))] = self.model.did[(act['n'], node)]
+            return out
         if name == 'NewChain':
             rcs = self._pending_rcs
+            if len(rcs) == 1 and not self.opts.get('always_multi'):
+                reg = {}
+                mc, chains = self._new_chains(rcs, registry=reg)
+                objd = {id(self.task(chains[0], node)): self.model.did[(rcs[0], node)] for node in self.model.res[rcs[0]]}
+                self.slots[act['s']] = dict(rcs=rcs, mc=None, chains=chains, objd=objd, registry=reg)
+                return out
             mc, chains = self._new_chains(rcs)
             objd = {}
             for rc, ch in zip(rcs, chains):
                 for node in self.model.res[rc]:
                     objd[id(self.task(ch, node))] = self.model.did[(rc, node)]
-            self.slots[act['s']] = dict(rcs=rcs, mc=mc, chains=chains, objd=objd)
+            self.slots[act['s']] = dict(rcs=rcs, mc=mc, chains=chains, objd=objd,
+                                        registry=(mc._tasks if mc is not None else None))
             if mc is not None:
                 out['tasknames'] = [sorted(ch.tasks) for ch in chains]
                 out['standalone'] = [sorted(self._new_chains([rc])[1][0].tasks) for rc in rcs]
@@ -160,7 +177,11 @@ class Epoch:
             ch.force(arg, recompute=act['rec'], delete_data=act['del'])
             return out
         if name == 'MultiForce':
-            sl['mc'].force(sorted(act['T']), recompute=act['rec'], delete_data=act['del'])
+            if sl['mc'] is not None:
+                sl['mc'].force(sorted(act['T']), recompute=act['rec'], delete_data=act['del'])
+            else:   # chains built one after the other on a shared registry: what MultiChain.force does, by hand
+                for ch in sl['chains']:
+                    ch.force(sorted(act['T']), recompute=act['rec'], delete_data=act['del'])
             return out
         if name == 'Inspect':
             for ch in sl['chains']:
